@@ -14,6 +14,7 @@ mod ray;
 mod rigid;
 mod section;
 mod flatten;
+mod align;
 
 pub struct State {
     pub slots: std::collections::HashMap<String, Box<dyn std::any::Any>>,
@@ -36,6 +37,7 @@ fn dispatch(rec: &Value, st: &mut State) -> Value {
         "rigid" => rigid::exec(rec, st),
         "section" => section::exec(rec, st),
         "flatten" => flatten::exec(rec, st),
+        "align" => align::exec(rec, st),
         _ => json!({"unknown_module": true}),
     }
 }
